@@ -23,14 +23,19 @@ CONSTANTS Vals,        \* non-nil values (set)
           MaxHist,     \* bound on the history length
           SortKinds,   \* comparator records explored by the Sort action
           Seps,        \* separator tokens for the concat law
+          XKeys,       \* numeric keys outside 0..MaxLen+2 that setx may use (hash part: 1.5, 2^40, negative)
+          XVals,       \* values stored under keys outside the list
+          MaxEx,       \* bound on the number of keys outside the list (0: none)
+          FillNs,      \* lengths used by the fill action ({}: none)
           Gen          \* "no" | "all" (one GEN line per transition) | "full" (only histories of length MaxHist)
 
 IKeys == {<<"n", i>> : i \in 0..(MaxLen + 2)}
-T == INSTANCE Table WITH Keys <- IKeys, Vals <- Vals
+AllKeys == IKeys \cup XKeys
+T == INSTANCE Table WITH Keys <- AllKeys, Vals <- Vals
 
-VARIABLES m, xs, res, hist
-vars == <<m, xs, res, hist>>
-view == <<m, xs, res>>
+VARIABLES m, xs, ex, res, hist
+vars == <<m, xs, ex, res, hist>>
+view == <<m, xs, ex, res>>
 
 Geti(mm, i) == T!Lookup(mm, <<"n", i>>)
 Seti(mm, i, v) == T!Store(mm, <<"n", i>>, v)
@@ -74,10 +79,14 @@ RefUnpack(mm, e0, i, j) ==
         e == Opt(j, e0)
     IN IF a > e THEN <<>> ELSE RefUnpackLoop(mm, a, e, <<Geti(mm, a)>>)
 
-(* maxn: the largest positive numeric key with a non-nil value, 0 if none    *)
+(* maxn: lua_next over the whole table, the largest positive numeric key, 0 if none *)
 RefMaxN(mm) ==
-    LET pos == {i \in 1..(MaxLen + 2) : Geti(mm, i) # Nil}
-    IN IF pos = {} THEN 0 ELSE CHOOSE i \in pos : \A j \in pos : j <= i
+    LET ks == {k \in DOMAIN mm : mm[k] # Nil /\ KeyPositive(k)}
+    IN IF ks = {} THEN <<"n", 0>> ELSE CHOOSE k \in ks : \A l \in ks : l = k \/ KeyLt(l, k)
+
+(* for k=1,n do t[k] = (a*k)%m end *)
+RECURSIVE RefFill(_, _, _, _, _)
+RefFill(mm, k, n, a, md) == IF k > n THEN mm ELSE RefFill(Seti(mm, k, <<"n", (a * k) % md>>), k + 1, n, a, md)
 
 (* a reference sort over m (insertion sort through rawgeti/rawseti) that     *)
 (* logs every comparator call; a failing comparator aborts it                *)
@@ -103,6 +112,7 @@ ListOf(mm, n) == [i \in 1..n |-> Geti(mm, i)]
 Init ==
     /\ m = T!EmptyMap
     /\ xs = <<>>
+    /\ ex = {}
     /\ res = TRUE
     /\ hist = <<>>
 
@@ -113,7 +123,8 @@ Record(o) == /\ Len(hist) < MaxHist
              /\ hist' = Append(hist, o)
 
 Mutate(o, ref) ==
-    /\ InDomain(xs, o)
+    /\ InDomain(xs, ex, o)
+    /\ ex' = ex
     /\ Len(Post(xs, o)) <= MaxLen
     /\ m' = ref.m
     /\ xs' = Post(xs, o)
@@ -132,21 +143,38 @@ Set == \E v \in NewVals, i \in 1..(MaxLen + 1) :
     Mutate([op |-> "set", i |-> i, v |-> v], [m |-> Seti(m, i, v), res |-> <<>>])
 Sort == \E c \in SortKinds, e \in Borders(m) :
     LET r == RefSort(m, e, c) IN
+    /\ InDomain(xs, ex, [op |-> "sort"])
+    /\ ex' = ex
     /\ m' = r.m
     /\ xs' = ListOf(r.m, e)
     /\ res' = SortOK(xs, c, r.calls, r.out, ListOf(r.m, e), <<>>)
     /\ Record([op |-> "sort", cmp |-> c])
 
-Next == InsEnd \/ Ins \/ RemEnd \/ Rem \/ Set \/ Sort
+Fill == \E n \in FillNs :
+    Mutate([op |-> "fill", n |-> n, a |-> 1, m |-> 4], [m |-> RefFill(m, 1, n, 1, 4), res |-> <<>>])
+(* t[k] = v for a numeric key outside the list *)
+SetX == \E k \in AllKeys, v \in XVals \cup {Nil} :
+    LET o == [op |-> "setx", k |-> k, v |-> v] IN
+    /\ MaxEx > 0
+    /\ InDomain(xs, ex, o)
+    /\ Cardinality(PostEx(ex, o)) <= MaxEx
+    /\ m' = T!Store(m, k, v)
+    /\ ex' = PostEx(ex, o)
+    /\ xs' = xs
+    /\ res' = TRUE
+    /\ Record(o)
+
+Next == InsEnd \/ Ins \/ RemEnd \/ Rem \/ Set \/ Sort \/ Fill \/ SetX
 
 (* random export (TLC -simulate): the kind of call is drawn first so that the *)
 (* mix of calls does not depend on how many argument combinations a kind has  *)
 SimNext ==      \* each RandomElement is a fresh draw: 1/6, 1/6, 1/6, 1/6, 1/4, 1/12
-    CASE RandomElement(1..6) = 1 -> InsEnd
+    CASE HoleKeys(ex) # {} -> SetX        \* list calls are outside the domain until the key beyond the hole is cleared
+      [] RandomElement(1..6) = 1 -> InsEnd
       [] RandomElement(1..5) = 1 -> Ins
       [] RandomElement(1..4) = 1 -> (IF xs = <<>> THEN InsEnd ELSE RemEnd)
       [] RandomElement(1..3) = 1 -> (IF xs = <<>> THEN Ins ELSE Rem)
-      [] RandomElement(1..4) # 1 -> Set
+      [] RandomElement(1..4) # 1 -> (IF RandomElement(1..4) = 1 THEN SetX ELSE Set)
       [] OTHER -> Sort
 SimSpec == Init /\ [][SimNext]_vars
 Spec == Init /\ [][Next]_vars
@@ -155,22 +183,41 @@ Spec == Init /\ [][Next]_vars
 (* m is the list view of xs: t[i] = xs[i] on 1..n, nil elsewhere; the border is unique *)
 ListView ==
     /\ IsList(xs)
-    /\ \A i \in 0..(MaxLen + 2) : Geti(m, i) = At(xs, i)
-    /\ Borders(m) = {Len(xs)}
+    /\ \A i \in (0 - 1)..(MaxLen + 2) : Geti(m, i) = TAt(xs, ex, i)
+    /\ \A k \in XKeys : T!Lookup(m, k) = ExGet(ex, k)
+    /\ Len(xs) \in Borders(m)
+    /\ (HoleKeys(ex) = {} => Borders(m) = {Len(xs)})
 (* results of the reference call are admitted by ListLib; sort runs are admitted by SortOK *)
 ResultsAgree == res
 
 OptInts == {Nil} \cup {<<"n", i>> : i \in (0 - 1)..(MaxLen + 2)}
+SepBytes(sep) == IF sep = Nil THEN <<>> ELSE <<44>>      \* Seps holds nil and ","
+(* an independent, linear definition of the digest: the bytes of the join, hashed left to right *)
+RECURSIVE NatBytes(_)
+NatBytes(k) == IF k < 10 THEN <<48 + k>> ELSE Append(NatBytes(k \div 10), 48 + (k % 10))
+RECURSIVE JoinBytes(_, _, _)
+JoinBytes(sb, a, b) ==
+    IF a > b THEN <<>>
+    ELSE NatBytes(TAt(xs, ex, a)[2]) \o (IF a < b THEN sb \o JoinBytes(sb, a + 1, b) ELSE <<>>)
+RECURSIVE Roll(_, _, _, _)
+Roll(bs, k, h, p) == IF k > Len(bs) THEN h ELSE Roll(bs, k + 1, (h * 31 + bs[k]) % p, p)
 QueriesAgree ==
-    \A e \in Borders(m) :
-      /\ RefMaxN(m) = MaxN(xs)
-      /\ e = GetN(xs)
-      /\ \A i, j \in OptInts :
-           /\ RefUnpack(m, e, i, j) = Unpack(xs, i, j)
-           /\ \A sep \in Seps :
-                LET a == RefConcat(m, e, sep, i, j)
-                    b == Concat(xs, sep, i, j)
-                IN a.err = b.err /\ (~a.err => a.s = b.s)
+    /\ RefMaxN(m) = MaxN(xs, ex)
+    /\ HoleKeys(ex) = {} =>
+        \A e \in Borders(m) :
+          /\ e = GetN(xs)
+          /\ \A i, j \in OptInts :
+               /\ RefUnpack(m, e, i, j) = Unpack(xs, ex, i, j)
+               /\ \A sep \in Seps :
+                    LET a == RefConcat(m, e, sep, i, j)
+                        b == Concat(xs, ex, sep, i, j)
+                        d == ConcatDigest(xs, ex, SepBytes(sep), i, j)
+                    IN /\ a.err = b.err /\ (~a.err => a.s = b.s)
+                       /\ d.err = b.err
+                       /\ (~d.err /\ d.sup =>
+                             LET bs == JoinBytes(SepBytes(sep), Opt(i, 1), Opt(j, e))
+                             IN /\ d.d.len = Len(b.s) /\ d.d.len = Len(bs)    \* the digest counts the bytes of the join
+                                /\ d.d.h1 = Roll(bs, 1, 0, P1) /\ d.d.h2 = Roll(bs, 1, 0, P2))
 
 (* sort laws on every reachable list: for a comparator that is a strict weak *)
 (* order, SortOK admits a permutation iff it is ordered; for a total order on *)
